@@ -20,12 +20,12 @@
 #include "signature_builder.c"
 
 #ifdef H_removeAnchors
-void harness(void) {
+static void run_case(int shape, size_t n) {
 	sb_view old, now;
 	KSI_CalendarAuthRec *oldAuth; KSI_PublicationRecord *oldPub;
 	size_t w = nondet_size();                 /* witness index: an arbitrary child of the old view */
 	int res;
-	sbh_make_signature(&old);
+	sbh_make_signature(&old, shape, n);
 	oldAuth = s_sig.calendarAuthRec; oldPub = s_sig.publication;
 	res = removeCalAuthAndPublication(nondet_bool() ? &s_sig : NULL);
 	sbh_snapshot(s_base, &now);
@@ -48,13 +48,13 @@ void harness(void) {
 #endif
 
 #if defined(H_replaceCal) || defined(H_applyCal)
-void harness(void) {
+static void run_case(int shape, size_t n) {
 	sb_view old, now;
 	size_t w = nondet_size();                 /* witness index: an arbitrary child of the old view */
 	KSI_CalendarHashChain *oldCal; KSI_CalendarAuthRec *oldAuth; KSI_PublicationRecord *oldPub;
 	KSI_CalendarHashChain *arg = nondet_bool() ? &s_newcal : NULL;
 	int res;
-	sbh_make_signature(&old);
+	sbh_make_signature(&old, shape, n);
 	oldCal = s_sig.calendarChain; oldAuth = s_sig.calendarAuthRec; oldPub = s_sig.publication;
 #ifdef H_replaceCal
 	res = replaceCalendarChain(nondet_bool() ? &s_sig : NULL, arg);
@@ -90,16 +90,30 @@ void harness(void) {
 			sbv_count(&now, SBV_TAG_CAL) == 1 && now.id[sbv_first(&now, SBV_TAG_CAL)] == g_sbv.construct_tlv), "OK: exactly one calendar chain child, the new one");
 	__CPROVER_assert(s_sig.baseTlv == s_base, "the base TLV object stays");
 	sbh_release(&now, g_sbv.construct_tlv); /* + --memory-leak-check: what left the view (and a new TLV that did not enter it) was released by the code */
+#ifdef H_replaceCal
 	if (res == KSI_OK && oldCal != NULL) REACH("calendar chain replaced");
 	if (res == KSI_OK && oldCal != NULL && old.n >= 3 && old.tag[1] == SBV_TAG_CAL) REACH("calendar chain in the middle replaced");
-	if (res == KSI_OK && oldCal == NULL && old.n > 0) REACH("calendar chain appended");
 	if (res == KSI_OK && s_shape == 2) REACH("calendar chain appended to an empty unexpanded base TLV");
+	if (res != KSI_OK && s_shape == 0) REACH("signature without base TLV refused");
+#endif
+	if (res == KSI_OK && oldCal == NULL && old.n > 0) REACH("calendar chain appended");
 	if (res == KSI_OK && old.n == SB_MAX_CHILDREN) REACH("full list");
 	if (res != KSI_OK && g_sbv.construct_calls == 1) REACH("construction of the new child failed");
-	if (res != KSI_OK && s_shape == 0) REACH("signature without base TLV refused");
 #ifdef H_applyCal
 	if (res == KSI_OK && oldPub != NULL && oldCal != NULL) REACH("extended: publication record dropped");
 	if (res == KSI_OK && oldAuth != NULL && oldCal != NULL) REACH("extended: calendar auth record dropped");
 #endif
 }
 #endif
+
+void harness(void) {
+#ifdef SBH_SPLIT       /* one case (shape, n) with concrete shape and n per path (cheap when positions matter: removal loop) */
+	int c = nondet_int(), k;
+	for (k = 0; k < SBH_CASES; k++) if (c == k) run_case(SBH_CASE_SHAPE(k), SBH_CASE_N(k));
+#else                  /* symbolic shape and n in one path (cheap when one symbolic child is looked up: replacement) */
+	int shape = nondet_int(); size_t n = nondet_size();
+	__CPROVER_assume(shape >= 0 && shape <= 2);
+	__CPROVER_assume(n <= SB_MAX_CHILDREN);               /* the stated bound of the job */
+	run_case(shape, n);
+#endif
+}
